@@ -98,12 +98,20 @@ def gdocHtml (bs : List RawBlock) : Bytes := bs.flatMap rawHtml
 inductive Raw5 where
   | old (b : RawBlock)
   | fence (fc : UInt8) (n : Nat) (info : Bytes) (lines : List Bytes)
+  /-- stage 12: an indented code block; `lines` = its lines behind the four spaces of indentation -/
+  | icode (lines : List Bytes)
+
+/-- is the block an indented code block? -/
+def isIcB : Raw5 → Bool
+  | .icode _ => true
+  | _ => false
 
 /-- a stage-5 block as the renderer reads it: the code lines with their line feeds, the info string if not empty -/
 def rawNode5 : Raw5 → GM.Node
   | .old b => rawNode b
   | .fence _ _ info lines =>
     .mk (.fencedCodeBlock (if info.isEmpty then none else some info) (lines.map (· ++ [10]))) none []
+  | .icode lines => .mk (.codeBlock (lines.map (· ++ [10]))) none []
 
 def hdocNode (bs : List Raw5) : GM.Node := .mk .document none (bs.map rawNode5)
 
@@ -113,6 +121,8 @@ def rawHtml5 : Raw5 → Bytes
     strBytes "<pre><code" ++
       (if info.isEmpty then [] else strBytes " class=\"language-" ++ GM.write false (info.takeWhile (· != 32)) ++ [34]) ++
       [62] ++ lines.flatMap (fun l => GM.rawWrite (l ++ [10])) ++ strBytes "</code></pre>\n"
+  | .icode lines =>
+    strBytes "<pre><code>" ++ lines.flatMap (fun l => GM.rawWrite (l ++ [10])) ++ strBytes "</code></pre>\n"
 
 def hdocHtml (bs : List Raw5) : Bytes := bs.flatMap rawHtml5
 
